@@ -21,3 +21,4 @@ for c in $commits; do
 done
 python3 scripts/rehash.py
 python3 scripts/mkmanifest.py
+git add -u; git commit -qm "merge_ws $n: fix hashes of /repo main in KNOWN_FINDINGS.txt, manifest regenerated" || true
